@@ -282,3 +282,41 @@ fn vp_native_response_truncation_end_to_end() {
     }
     println!("VP-NATIVE response_truncation_end_to_end cases={}", cases);
 }
+
+/// a transport that hands out at most `seg` bytes per read and answers WouldBlock once everything has been handed out ("the
+/// server pauses indefinitely")
+struct Paused<'a> { data: &'a [u8], pos: usize, seg: usize }
+impl<'a> std::io::Read for Paused<'a> {
+    fn read(&mut self, buf: &mut [u8]) -> std::io::Result<usize> {
+        if buf.is_empty() { return Ok(0); }
+        if self.pos >= self.data.len() { return Err(std::io::ErrorKind::WouldBlock.into()); }
+        let n = buf.len().min(self.seg).min(self.data.len() - self.pos);
+        buf[..n].copy_from_slice(&self.data[self.pos..self.pos + n]); self.pos += n; Ok(n)
+    }
+}
+/// C04 / C19: the head parses to the same status and fields for every segmentation of its bytes and every BufReader capacity, and
+/// parsing returns as soon as the blank line has arrived (the transport never delivers anything after it)
+#[test]
+fn vp_native_head_any_segmentation() {
+    let heads: [&[u8]; 4] = [
+        b"HTTP/1.1 200 OK\r\n\r\n",
+        b"HTTP/1.1 404 Not Found\r\nX-A: 1\r\nx-a:  two  \r\nSet-Cookie: a=b\r\nSet-Cookie: c=d\r\n\r\n",
+        b"HTTP/1.0 299 \r\nFolded: first\n second\n\tthird\r\nObs: caf\xe9\r\nEmpty:\r\nContent-Length: 0\r\n\r\n",
+        b"HTTP/1.1 100 Continue\r\nA:\n b\r\nB: \n\r\nLong: 0123456789012345678901234567890123456789012345678901234567890123456789\r\n\r\n",
+    ];
+    let mut cases = 0u64;
+    for head in heads {
+        let mut whole = std::io::BufReader::new(&head[..]);
+        let (s0, h0) = crate::parsing::response::parse_response_head(&mut whole, 100).unwrap();
+        let fields0: Vec<(String, Vec<u8>)> = h0.iter().map(|(k, v)| (k.as_str().to_string(), v.as_bytes().to_vec())).collect();
+        for cap in [1usize, 2, 3, 7, 64, 8192] { for seg in [1usize, 2, 3, 5, 64] {
+            let mut r = std::io::BufReader::with_capacity(cap, Paused { data: head, pos: 0, seg });
+            let (s, h) = crate::parsing::response::parse_response_head(&mut r, 100)
+                .unwrap_or_else(|e| panic!("head {:?} with {}-byte segments and a {}-byte buffer: {} (nothing follows the blank line)", String::from_utf8_lossy(head), seg, cap, e));
+            cases += 1;
+            let fields: Vec<(String, Vec<u8>)> = h.iter().map(|(k, v)| (k.as_str().to_string(), v.as_bytes().to_vec())).collect();
+            assert!(s == s0 && fields == fields0, "head {:?} parsed differently with {}-byte segments and a {}-byte buffer", String::from_utf8_lossy(head), seg, cap);
+        } }
+    }
+    println!("VP-NATIVE head_any_segmentation cases={}", cases);
+}
